@@ -372,7 +372,7 @@ def main():
   rep.coverage["ref_columns_checked"] = len(ref_columns())
   from checks import C02
   C02.tune_explore()
-  explore.explore(rep, "checks.C09", "C09Monitor", n_quick=128, budget_quick_s=45)
+  explore.explore(rep, "checks.C09", "C09Monitor", n_quick=128, budget_quick_s=30)
   return rep.finish()
 
 
